@@ -1049,7 +1049,8 @@ def skipTElems : TElems → Except Err Unit
       (match skipTFields fs with
        | .error e => .error e
        | .ok _ => skipTElems tl)
-    | _ => skipTElems tl
+    | .scalar _ => skipTElems tl
+    | .list _ => skipTElems tl
 end
 
 /-! ### the repair of finding 10 (fixes/prototext-skip-depth.diff): skipping with the limit -/
@@ -1074,7 +1075,8 @@ def skipTElemsFix (limit : Int) : TElems → Except Err Unit
       (match skipTFieldsFix (limit - 1) fs with
        | .error e => .error e
        | .ok _ => skipTElemsFix limit tl)
-    | _ => skipTElemsFix limit tl
+    | .scalar _ => skipTElemsFix limit tl
+    | .list _ => skipTElemsFix limit tl
 end
 
 /-- prototext `unmarshalMessage`, one iteration up to the value: name lookup, unknown / reserved names
@@ -1112,6 +1114,41 @@ def tdHead (D : DOpts) (X : SchemaX) (d : MsgX) (limit : Int) (name : TName) (se
 structure EntrySt where
   key : Option Val := none
   val : Option Val := none
+
+/-- what `unmarshalMapEntry` decides about one field of the entry before reading its value -/
+inductive EHead where
+  | error (e : Err)
+  | skip                       -- unknown entry field with DiscardUnknown: the value is skipped
+  | key (kf : FieldX)
+  | valMsg (vf : FieldX)
+  | valScalar (vf : FieldX)
+
+/-- an unknown field inside a map entry -/
+def entryUnknown (D : DOpts) (limit : Int) (v : TV) : EHead :=
+  if !D.discard then .error .unknown
+  else if D.skipLimited then
+    match skipTFix limit v with
+    | .error e => .error e
+    | .ok _ => .skip
+  else .skip
+
+def tdEntryHead (D : DOpts) (ed : MsgX) (limit : Int) (name : TName) (sep : Bool) (v : TV) (st : EntrySt) : EHead :=
+  match ed.find 1, ed.find 2 with
+  | some kf, some vf =>
+    (match name with
+     | .ident s =>
+       if s = sKey then
+         if !sep then .error .noSep
+         else if st.key.isSome then .error .dupEntry
+         else .key kf
+       else if s = sValue then
+         if !vf.f.kind.isMessage && !sep then .error .noSep
+         else if st.val.isSome then .error .dupEntry
+         else if vf.f.kind.isMessage then .valMsg vf else .valScalar vf
+       else entryUnknown D limit v
+     | .type _ => entryUnknown D limit v
+     | .number _ => entryUnknown D limit v)
+  | _, _ => .error .delegated
 
 mutual
 /-- prototext `unmarshalMessage(…, checkDelims = true)` on a field value;
@@ -1165,14 +1202,16 @@ def tdElems (C : TCodec) (D : DOpts) (X : SchemaX) (fx : FieldX) (limit : Int) :
         else (match tdFields C D X fx.f.sub (limit - 1) fs {} {} Msg.empty with
          | .error e => .error e
          | .ok sub => (tdElems C D X fx limit tl).map (Vals.cons (.msg sub)))
-      | _ => .error .syntax
+      | .scalar _ => .error .syntax
+      | .list _ => .error .syntax
     else
       match v with
       | .scalar t =>
         (match tdTok C fx t with
          | .error e => .error e
          | .ok x => (tdElems C D X fx limit tl).map (Vals.cons x))
-      | _ => .error .syntax
+      | .msg _ => .error .syntax
+      | .list _ => .error .syntax
 /-- `unmarshalMap`: the limit is decremented **once per map field occurrence** -/
 def tdMap (C : TCodec) (D : DOpts) (X : SchemaX) (fx : FieldX) (limit : Int) (cur : Vals) : TV → Except Err Vals
   | .msg fs =>
@@ -1193,7 +1232,8 @@ def tdEntryList (C : TCodec) (D : DOpts) (X : SchemaX) (fx : FieldX) (limit : In
       (match tdEntry C D X fx limit fs {} with
        | .error e => .error e
        | .ok (k, x) => tdEntryList C D X fx limit tl (mapPut cur k (mkEntry k x)))
-    | _ => .error .syntax
+    | .scalar _ => .error .syntax
+    | .list _ => .error .syntax
 /-- `unmarshalMapEntry`: returns key and value (defaults filled in) -/
 def tdEntry (C : TCodec) (D : DOpts) (X : SchemaX) (fx : FieldX) (limit : Int) : TFields → EntrySt → Except Err (Val × Val)
   | .nil, st =>
@@ -1203,40 +1243,21 @@ def tdEntry (C : TCodec) (D : DOpts) (X : SchemaX) (fx : FieldX) (limit : Int) :
            st.val.getD (if vf.f.kind.isMessage then .msg Msg.empty else defaultScalar vf.f))
     | _, _ => .error .delegated
   | .cons name sep v tl, st =>
-    match (X.msg fx.f.sub).find 1, (X.msg fx.f.sub).find 2 with
-    | some kf, some vf =>
-      (match name with
-       | .ident s =>
-         if s = sKey then
-           if !sep then .error .noSep
-           else if st.key.isSome then .error .dupEntry
-           else match tdScalar C kf v with
-             | .error e => .error e
-             | .ok k => tdEntry C D X fx limit tl { st with key := some k }
-         else if s = sValue then
-           if !vf.f.kind.isMessage && !sep then .error .noSep
-           else if st.val.isSome then .error .dupEntry
-           else if vf.f.kind.isMessage then
-             match tdMsgV C D X vf.f.sub limit v with
-             | .error e => .error e
-             | .ok sub => tdEntry C D X fx limit tl { st with val := some (.msg sub) }
-           else match tdScalar C vf v with
-             | .error e => .error e
-             | .ok x => tdEntry C D X fx limit tl { st with val := some x }
-         else if !D.discard then .error .unknown
-         else if D.skipLimited then
-           (match skipTFix limit v with
-            | .error e => .error e
-            | .ok _ => tdEntry C D X fx limit tl st)
-         else tdEntry C D X fx limit tl st
-       | _ =>
-         if !D.discard then .error .unknown
-         else if D.skipLimited then
-           (match skipTFix limit v with
-            | .error e => .error e
-            | .ok _ => tdEntry C D X fx limit tl st)
-         else tdEntry C D X fx limit tl st)
-    | _, _ => .error .delegated
+    match tdEntryHead D (X.msg fx.f.sub) limit name sep v st with
+    | .error e => .error e
+    | .skip => tdEntry C D X fx limit tl st
+    | .key kf =>
+      (match tdScalar C kf v with
+       | .error e => .error e
+       | .ok k => tdEntry C D X fx limit tl { st with key := some k })
+    | .valMsg vf =>
+      (match tdMsgV C D X vf.f.sub limit v with
+       | .error e => .error e
+       | .ok sub => tdEntry C D X fx limit tl { st with val := some (.msg sub) })
+    | .valScalar vf =>
+      (match tdScalar C vf v with
+       | .error e => .error e
+       | .ok x => tdEntry C D X fx limit tl { st with val := some x })
 end
 
 /-- the value of a resolved, accepted field stored into `m`: what `tdFields` does with `.value` -/
